@@ -620,6 +620,16 @@ class Run:
         pa = self.pick(a1, lambda e: e["cls"] in ("A", "A2") and self.usable(e))
         if pa is None:
             return "skip"
+        self.steal_note = False
+        self.unloaded_note = False
+        if OS.state_of(pa["obj"]) == "persistent" and not OS.loaded(pa["obj"], "p")[0]:
+            # KF-C37-2: assigning the many-to-one side (A.p, no active_history) while its previous value is not loaded cannot tell the
+            # previous member, whose loaded P.a keeps pointing here.  Same rule as op_set_parent: applications read the reference first,
+            # so does the harness - unless the run opts in to exercising the known findings (o2o_steal), which ends the history there.
+            if self.cfg.get("o2o_steal"):
+                self.unloaded_note = True
+            else:
+                pa["obj"].p
         if a2 % 3 == 0:
             ok, cur = OS.loaded(pa["obj"], "p")
             if ok and cur is not None and not self.member_ok(cur):
@@ -638,7 +648,6 @@ class Run:
         if not self.pair_ok(pa["obj"], p["obj"]) or not self.pair_ok(p["obj"], pa["obj"]):
             return "skip"
         before_members = self.members()
-        self.steal_note = False
         if self.cfg.get("o2o_steal"):
             owners = [x for x in self.entries(self.of("A", "A2")) if x["obj"] is not pa["obj"] and OS.loaded(x["obj"], "p")[1] is p["obj"]]
             ok, cur_p = OS.loaded(pa["obj"], "p")
@@ -1896,6 +1905,8 @@ class Run:
                         note = ""
                         if kind == "set_p" and getattr(self, "steal_note", False) and {an, r["rev"]} == {"p", "a"}:
                             note = " [one-to-one member taken over while a previous owner / member was loaded]"
+                        elif kind == "set_p" and getattr(self, "unloaded_note", False) and {an, r["rev"]} == {"p", "a"}:
+                            note = " [many-to-one side assigned while its previous value was not loaded]"
                         self.V("C37", "backref_out_of_sync", "%s.%s contains/refers to a %s whose %s does not point back (after %s)%s"
                                % (e["cls"], an, ey["cls"], r["rev"], kind, note), op=i)
 
